@@ -60,6 +60,7 @@ func (or *ObjectRegistry) applyConfig(config map[string]string)
   ensures new-or-changed-spec-gets-a-fresh-entity: forall n string :: n in config && parses(config[n]) && !(old(n in or.entities) && old(or.entities[n].spec.sid) == sidOf(config[n])) ==> n in or.entities && fresh(or.entities[n]) && or.entities[n].spec.sid == sidOf(config[n])
   ensures live-set-is-the-snapshot: forall n string :: n in or.entities ==> n in config
   ensures wf: entitiesWF(or)
+  ensures watchers-stay-well-formed: watchersWF(or)
   ensures disappeared-name-is-a-delete: forall n string :: old(n in or.entities) && !(n in config) ==> gDeleted[n] && gDeletedEnt[n] == old(ref(or.entities[n])) && !gCreated[n] && !gUpdated[n]
   ensures new-name-is-a-create: forall n string :: n in config && parses(config[n]) && !old(n in or.entities) ==> gCreated[n] && !gDeleted[n] && !gUpdated[n]
   ensures same-kind-spec-change-is-an-update: forall n string :: n in config && parses(config[n]) && old(n in or.entities) && old(or.entities[n].spec.sid) != sidOf(config[n]) && old(or.entities[n].spec.meta.Kind) == kindOfYaml(config[n]) ==> gUpdated[n] && !gCreated[n] && !gDeleted[n]
@@ -214,4 +215,19 @@ func (s *Spec) Kind() (k string)
   pure
   requires s != nil && s.meta != nil
   ensures k == s.meta.Kind
+
+// ---- C20: every snapshot the syncer hands over is applied - an empty one too (every object disappeared) ----
+ghost var gSnapshots int     // snapshots received from the syncer
+ghost var gApplied int       // calls of applyConfig
+func (or *ObjectRegistry) storeConfigInLocal(config map[string]string)
+  trusted
+func (or *ObjectRegistry) run()
+  flag allocates
+  requires or != nil && entitiesWF(or) && watchersWF(or) && or.super != nil
+  modifies gSnapshots, gApplied, eDom, eVal, gDeleted, gCreated, gUpdated, gDeletedEnt, entries(or.entities), allof("map<string,*supervisor.ObjectEntity>#dom"), allof("map<string,*supervisor.ObjectEntity>#val"), allof("map<string,*supervisor.ObjectEntity>#card")
+  ensures every-snapshot-is-applied: gApplied - old(gApplied) == gSnapshots - old(gSnapshots)
+  invariant[1] gApplied - old(gApplied) == gSnapshots - old(gSnapshots) && entitiesWF(or) && watchersWF(or)
+  invariant[2] config != nil && fresh(config) && gApplied - old(gApplied) + 1 == gSnapshots - old(gSnapshots) && entitiesWF(or) && watchersWF(or) && len(config) <= idx$2
+  ghost at select-case[2]: gSnapshots := gSnapshots + 1
+  ghost at call applyConfig: gApplied := gApplied + 1
 @*/
